@@ -60,6 +60,13 @@ impl GrlReteLoader {
         Ok(loaded_count)
     }
 
+    /// Verification seam: public access to the rule conversion, so that a harness can wrap
+    /// the action closure of a GRL-loaded rule before adding it to an engine
+    #[cfg(rre_verif)]
+    pub fn verif_convert_rule(rule: Rule) -> Result<TypedReteUlRule> {
+        Self::convert_rule_to_rete(rule)
+    }
+
     /// Convert GRL Rule to TypedReteUlRule
     fn convert_rule_to_rete(rule: Rule) -> Result<TypedReteUlRule> {
         // Convert ConditionGroup to ReteUlNode
